@@ -101,6 +101,22 @@ def corruptions(g, rng):
             continue
         tgt.fields["input"][field] = val
         yield "illtyped-" + kind, p
+    # a list literal whose first item is fine and a later one is not (items of every position have to be checked)
+    for kind, lst in (("map-item", ["fine", {"a": "map"}]), ("list-item", ["fine", "also", ["nested"]]), ("expr-object-item", ["fine", Expr(Ref(first.name, "outputs", "success"))]),
+                      ("expr-bool-item", [Expr(In("tag")), Expr(In("flag"))])):
+        if last is first and kind == "expr-object-item":
+            continue
+        p = clone()
+        p.step(last.name).fields["input"]["l"] = lst
+        yield "illtyped-later-list-" + kind, p
+    for s_ in prog.steps:
+        if s_.kind == "foreach":
+            for kind, lst in (("missing-field", [{"tag": "a"}, {}]), ("wrong-type", [{"tag": "a"}, {"tag": ["x"]}]), ("unknown-field", [{"tag": "a"}, {"tag": "b", "zz": 1}]),
+                              ("scalar-item", [{"tag": "a"}, {"tag": "b"}, [1]])):
+                p = clone()
+                p.step(s_.name).fields["items"] = lst
+                yield "illtyped-later-foreach-item-" + kind, p
+            break
     p = clone()
     del p.step(last.name).fields["input"]["tag"]
     yield "missing-required-input", p
@@ -167,8 +183,47 @@ def run(check):
             idx += 1
             items.append((case, g, kind))
             cor_n += 1
+    # the same step registry used for a valid workflow tree and then for one whose sub-workflow file of the same name is
+    # corrupted (and the other way round): each preparation must judge the files it is given
+    seq_cases = []
+    BAD_SUBS = {
+        "dangling-step": lambda sub: sub.outputs.__setitem__("success", {"t": Expr(Ref("nosuchstep", "outputs", "success", "tag"))}),
+        "dangling-output": lambda sub: sub.outputs.__setitem__("success", {"t": Expr(Ref("w0", "outputs", "nosuchoutput", "tag"))}),
+        "illtyped-literal": lambda sub: sub.steps[0].fields["input"].__setitem__("n", "notanint"),
+        "unknown-input-field": lambda sub: sub.steps[0].fields["input"].__setitem__("tag", Expr(In("nosuchfield"))),
+        "self-reference": lambda sub: sub.steps[0].fields["input"].__setitem__("a", Expr(Ref("w0", "outputs", "success"))),
+    }
+    for j in range(check.pick(10, 60)):
+        rng = random.Random(derive_seed(check.seed, "c10-seq", j))
+        kind = sorted(BAD_SUBS)[j % len(BAD_SUBS)]
+
+        def tree(bad):
+            sub = gen.sub_program("sub.yaml", rng.choice([1, 2]))
+            if bad:
+                BAD_SUBS[kind](sub)
+            return Program([Step("loop", "foreach", sub=sub, items=Expr(In("items")))], {"success": {"d": Expr(Ref("loop", "outputs", "success", "data"))}}, gen.BASE_INPUT)
+        order = [False, True] if j % 3 else [True, False, True]
+        seq = [{"files": tree(bad).files(), "input": {"tag": "T", "items": [{"tag": "i0"}]}} for bad in order]
+        seq_cases.append(({"id": "c10-q%04d" % j, "mode": "seq", "files": {}, "scripts": {}, "runs": [], "extra": {"sequence": seq}, "no_events": True}, kind, order))
     with harness.Runner(instrument=False) as rn:
         out = rn.run_cases([c for c, _g, _k in items])
+        seq_out = rn.run_cases([c for c, _k, _o in seq_cases])
+    for case, kind, order in seq_cases:
+        o = seq_out.get(case["id"], {})
+        check.count()
+        if "result" not in o:
+            check.inconclusive_case(case["id"], str(o.get("death", {}).get("key")))
+            continue
+        runs = o["result"].get("runs") or []
+        for pos, (bad, rr) in enumerate(zip(order, runs)):
+            refused = rr.get("err_type") in ("parse", "prepare")
+            if bad and not refused:
+                check.report("accepted@after-valid-twin:" + kind, "sequence %s through one step registry: the tree at position %d has a corrupted sub-workflow (%s) and was accepted (%s)" % (
+                    ["corrupted" if b else "valid" for b in order], pos, kind, rr.get("out_id") or rr.get("err")), {"case": case})
+            elif not bad and refused:
+                check.report("refused@after-corrupted-twin:" + kind, "sequence %s through one step registry: the valid tree at position %d was refused: %s" % (
+                    ["corrupted" if b else "valid" for b in order], pos, (rr.get("err") or "")[:200]), {"case": case})
+        check.nontrivial("seq|%s|%s" % (kind, order))
     by_id = {c["id"]: (c, g, k) for c, g, k in items}
     stats = {"accepted_programs": 0, "graphs_equal": 0, "corruptions": cor_n, "corruptions_rejected": 0, "rejection_kinds": {}}
     for cid in sorted(out):
